@@ -3,4 +3,4 @@ META = dict(trusted_base=COMMON_TB, assumptions=COMMON_ASSUME)
 
 
 def items(tier):
-    return contract_items("C02")
+    return contract_items("C02", tier) + [dict(kind="lemma", spec="lemmas.l_c02:step")]
